@@ -324,9 +324,29 @@ def h_from_inputs(W, ob):
         ob.check(ok2, 'from_inputs|every-present-input', 'every input present in the map is serialised, whatever its frame', 'an input is serialised only under `%s`' % dnf_str(eg)[:200], where(f, t.line))
 
 
+def h_set_frame_delay(W, ob):
+    """InputQueue::set_frame_delay: what it reports to the caller (and the caller sends to the remotes) is exactly what it put into the queue"""
+    f = W.fn(IQ + '::set_frame_delay')
+    cx = W.ctx(f)
+    adds = [t for t in f.calls() if callee_matches(t.callee, IQ + '::add_input_by_frame')]
+    pushes = [t for t in f.calls() if last_seg(t.callee.best) == 'push']
+    ok = len(adds) == 1 and len(pushes) == 1
+    why = '%d insertions, %d reported fills' % (len(adds), len(pushes))
+    if ok:
+        inp, frm = key(cx.expr_operand(adds[0].args[1])), key(cx.expr_operand(adds[0].args[2]))
+        rep = key(cx.expr_operand(pushes[0].args[1]))
+        want = ('PlayerInput::new(%s, %s.input)' % (frm, inp), 'frame_info::PlayerInput::new(%s, %s.input)' % (frm, inp), 'PlayerInput{frame: %s, input: %s.input}' % (frm, inp), inp)
+        ok = rep in want or rep.endswith('::new(%s, %s.input)' % (frm, inp))
+        why = 'inserted `%s` at `%s`, reported `%s`' % (inp[:60], frm[:30], rep[:120])
+        same_iter = cfg_of(f).path_avoiding([pushes[0].bb], [adds[0].bb]) is None
+        ok = ok and same_iter
+    ob.check(ok, 'set_frame_delay|reports-what-it-inserted', 'each fill reported to the caller is the input that was inserted, under the same frame',
+             'InputQueue::set_frame_delay: %s -- the owner simulates one value and announces another' % why, where(f))
+
+
 ALL = dict(last_recv_frame=h_last_recv_frame, prev_pos=h_prev_pos, confirmed_input=h_confirmed_input_, get_cell=h_get_cell, saved_state_by_frame=h_saved_state_by_frame,
            cell_accessors=h_cell_accessors, player_input=h_player_input, protocol_state_tests=h_protocol_state_tests, endpoint_getters=h_endpoint_getters,
-           add_input=h_add_input, next_complete=h_next_complete, registry_counts=h_registry_counts, checksum_report=h_checksum_report, from_inputs=h_from_inputs)
+           add_input=h_add_input, next_complete=h_next_complete, registry_counts=h_registry_counts, checksum_report=h_checksum_report, from_inputs=h_from_inputs, set_frame_delay=h_set_frame_delay)
 
 
 def bundle(*names):
